@@ -159,11 +159,13 @@ func c03apply(t *tree.Tree, n int, op int, step int) (*tree.Tree, bool) {
 	tag := func(s string) string { return fmt.Sprintf("%s%d", s, step) }
 	switch op {
 	case 0:
-		in := innerNodes(t)
-		if len(in) == 0 {
+		// any node of the tree as new root: inner nodes must be accepted, a tip
+		// is either refused or ... the result must still be a proper tree
+		nodes := t.Nodes()
+		if len(nodes) == 0 {
 			return t, false
 		}
-		return t, t.Reroot(in[sxChoose(tag("newroot"), len(in))]) == nil
+		return t, t.Reroot(nodes[sxChoose(tag("newroot"), len(nodes))]) == nil
 	case 1:
 		return t, t.RerootFirst() == nil
 	case 2:
@@ -335,7 +337,10 @@ func H_C03_edits() {
 		if sxParam("skipmask", 0)&(1<<uint(op)) != 0 {
 			return
 		}
-		if om := sxParam("onlymask", 0); om != 0 && om&(1<<uint(op)) == 0 {
+		if om := sxParam("onlymask", 0); om != 0 && step == 0 && om&(1<<uint(op)) == 0 {
+			return
+		}
+		if om := sxParam("onlymask2", 0); om != 0 && step > 0 && om&(1<<uint(op)) == 0 {
 			return
 		}
 		var ok bool
